@@ -240,6 +240,70 @@ def sz2(F, R):
                   "field it handles is not written and read by generated code from the same declaration" % short_path(key))
 
 
+REMOVERS = ("remove", "clear", "retain", "drain", "pop", "truncate", "take")
+
+
+def sz6(F, R):
+    """C09, container premise (DESIGN C09, "holed table last").  emap's reader (audited, DESIGN §3) collects all entries of a table,
+    then builds `with_capacity_none(number of entries)` and inserts every key: a table that was saved with a removed slot (some key >=
+    the number of entries) makes that insert panic *once the table has been decoded completely*.  A cut inside or before the table
+    ends in UnexpectedEof first.  So for every prefix to be rejected rather than to panic, a table of the graph on which a slot
+    removal is reachable anywhere in the crate must be the LAST section of the image, written and read (then its complete decode is
+    the complete image, k = size, outside the property).  Which tables can have holes is read off the code (who-may-call on
+    emap::Map::remove & co.), the section order off the derived impls' MIR; nothing is frozen."""
+    import gc_rules as G
+    c = G.context(F)
+    holed = {}
+    nops = 0
+    for e in c.all:
+        if e.kind == "map_call" and (e.field or "").startswith("Sodg::"):
+            nops += 1
+            if e.op in REMOVERS:
+                holed.setdefault(e.field.split("::")[1], []).append(e)
+    sb = ser_body(F, "Sodg")
+    rd = reader_struct(F, "Sodg")
+    if sb is None or rd is None or "Sodg" not in F.adts:
+        R.missing("SZ6", "derived serde impls of Sodg")
+        return
+    R.analysed(sb)
+    R.analysed(rd[0])
+    wf = [w for w in writer_fields(sb) if w["call"] != "skip_field" and w["name"]]
+    # order of the sections as written: dominance order of the serialize_field calls
+    wf.sort(key=lambda w: sum(1 for y in wf if sb.dominates(y["site"], w["site"])))
+    worder = [w["name"] for w in wf]
+    rb, rsite, agg = rd
+    got = dict(agg[3])
+    rrank = {}
+    for f in (x["name"] for x in F.adts["Sodg"]["variants"][0]["fields"]):
+        k = element_rank(rb, strip_load(got.get(f, ("?",))))
+        if k is not None:
+            rrank[f] = k
+    R.floor("SZ6", "sections of the image found in the derived writer", len(worder), 3)
+    R.floor("SZ6", "root bodies of the crate scanned for slot removals", sum(1 for _ in F.roots()), 40)
+    if not holed:
+        R.ok("SZ6", "(crate)", "no slot removal is reachable on any table of the graph (%d whole-table operations): no saved table has a "
+             "hole, every table decodes or ends in UnexpectedEof" % nops)
+        return
+    for f, evs in sorted(holed.items()):
+        where = evs[0].where()
+        if f not in worder:
+            R.ok("SZ6", where, "table `%s` can lose slots but is not part of the image" % f)
+            continue
+        after_w = worder[worder.index(f) + 1:]
+        after_r = sorted(g for g, k in rrank.items() if f in rrank and k > rrank[f])
+        if after_w or after_r:
+            R.bad("SZ6", "SZ6/Sodg::%s/holed-table-not-last-section" % f, sb.where(wf[worder.index(f)]["site"]),
+                  "slots of table `%s` can be removed (%s, %s), so a saved image may hold a table with a hole; emap's reader panics on such a "
+                  "table as soon as it has been decoded completely. The section is followed by %s in the image: every cut inside those "
+                  "later sections makes load() panic instead of returning Err. It must be the last section."
+                  % (f, evs[0].fn_key(), evs[0].op, ", ".join("`%s`" % x for x in (after_w or after_r))),
+                  {"written_order": worder, "read_rank": rrank, "removal_sites": [e.where() for e in evs]})
+        else:
+            R.ok("SZ6", sb.where(wf[worder.index(f)]["site"]),
+                 "table `%s` (slots removable at %d site(s), e.g. %s) is the last section of the image as written (%s) and as read: it "
+                 "cannot be decoded completely from a proper prefix" % (f, len(evs), evs[0].fn_key(), " < ".join(worder)))
+
+
 def fallible_events(raw, krate=None, pathprefix=None, names=None):
     out = []
     for e in raw:
